@@ -73,7 +73,7 @@ func (x *Exec) evalClauseIn(st *State, cl *Clause, pos token.Pos, q string) *Ter
 			st.pc = st.pc[:mark]
 		}
 		if !x.skolem {
-			t = x.b.Forall(bound, t)
+			t = x.b.Forall(bound, t, x.inferPatterns(bound, t)...)
 		}
 		st.names = savedNames
 	}
@@ -390,7 +390,8 @@ func (x *Exec) evalSpecCall(st *State, e *ast.CallExpr) *Value {
 				return scalarV(boolT, x.b.Forall([]*Term{bv}, x.b.Implies(x.b.And(append([]*Term{rng}, extra...)...), body)))
 			}
 			// being assumed: the invariants hold for every index as well
-			return scalarV(boolT, x.b.Forall([]*Term{bv}, x.b.Implies(rng, x.b.And(append([]*Term{body}, extra...)...))))
+			fb := x.b.Implies(rng, x.b.And(append([]*Term{body}, extra...)...))
+			return scalarV(boolT, x.b.Forall([]*Term{bv}, fb, x.inferPatterns([]*Term{bv}, fb)...))
 		}
 		return scalarV(boolT, x.b.Exists([]*Term{bv}, x.b.And(append([]*Term{rng, body}, extra...)...)))
 	case "allref":
@@ -699,4 +700,56 @@ func (x *Exec) ghostGlobal(st *State, name, typ string) *Value {
 
 func (x *Exec) setGhostGlobal(st *State, name string, v *Value) {
 	st.globals["ghost."+name] = v
+}
+
+// inferPatterns picks trigger terms for a quantifier: applications of
+// uninterpreted spec functions that mention every bound variable.
+func (x *Exec) inferPatterns(bound []*Term, body *Term) [][]*Term {
+	bset := map[*Term]bool{}
+	for _, b := range bound {
+		bset[b] = true
+	}
+	var cands []*Term
+	seen := map[*Term]bool{}
+	var mentions func(t *Term, acc map[*Term]bool)
+	mentions = func(t *Term, acc map[*Term]bool) {
+		if bset[t] {
+			acc[t] = true
+		}
+		for _, a := range t.Args {
+			mentions(a, acc)
+		}
+	}
+	var walk func(t *Term, underQ bool)
+	walk = func(t *Term, underQ bool) {
+		if seen[t] {
+			return
+		}
+		seen[t] = true
+		if t.Op == "forall" || t.Op == "exists" {
+			return // nested quantifiers carry their own triggers
+		}
+		if t.Op == "app" && strings.HasPrefix(t.Name, "uf.") {
+			acc := map[*Term]bool{}
+			mentions(t, acc)
+			if len(acc) == len(bset) {
+				cands = append(cands, t)
+			}
+		}
+		for _, a := range t.Args {
+			walk(a, underQ)
+		}
+	}
+	walk(body, false)
+	if len(cands) == 0 {
+		return nil
+	}
+	var pats [][]*Term
+	for i, c := range cands {
+		if i >= 3 {
+			break
+		}
+		pats = append(pats, []*Term{c})
+	}
+	return pats
 }
